@@ -23,10 +23,12 @@ def pick(prefixes, prop, only=None):
             continue
         if prop not in reg[n]["props"]:
             continue
-        st, ms = tim.get(n, ["?", 10**9])
+        st, ms = tim.get(n, ["?", 10**9])[:2]
         if (st == "Success" and ms < 70000) or n in KNOWN_FAIL:
             quick.append(n)
-        else:
+        elif st == "Success" and ms < 900000:
+            # thorough tier (per-harness timeout 1500 s): only harnesses MEASURED to finish with margin -- a harness that
+            # may time out would make the check undecided (exit 2) on the unchanged tree
             thorough.append(n)
     return quick, thorough
 
